@@ -3,7 +3,7 @@
    functions that respect numeric equality of their arguments.  The third argument of [run_world] / [step]
    is [shared_key]: true = source with the repair pending_fixes/C14_1 (proxy shares the key cell together
    with the memo dict), false = source before the repair (proxy shares the dict, copies the key). *)
-From V Require Import Common.NumFacts C14.Model C14.Proofs.
+From V Require Import Common.NumFacts C14.Model C14.Proofs C14.ProofsDeep.
 
 (* MAIN.  After EVERY history of operations (reads of any property in any order, T / P / phase / phases
    changes, in-place flow edits, scaling, emptying, mixing, copy_like, link_with / unlink, proxies, flow
@@ -270,3 +270,79 @@ Example C14_vol_mix_hypotheses :
   ps_rows (pstate_of (w_st w') O) = [[0; 0; 0]; [1 + 0; 0 + 0; 0 + 0]; [0 + 0; 0 + 0; 2 + 0]] /\
   dc_of (w_st w') (i_dc (imol_of (w_st w') (o_imol (obj_of (w_st w') O)))) = [].
 Proof. split; [vm_compute; reflexivity|]. split; [vm_compute; reflexivity|]. split; vm_compute; reflexivity. Qed.
+
+(* ================= deepening round: one-row MultiStreams, necessity of the second domain condition ================= *)
+
+(* A MultiStream with a single phase (one row) cannot come out of the one-step constructor [ONew] of the model, which
+   builds a Stream from one row; it is re-created by [one_row_ops]: construction with one spare row followed by the
+   package reset, whose reset_chemicals re-creates the flow array with len(_phases) rows.  The new object is in
+   exactly the requested state, has the requested package and an empty memo. *)
+Theorem C14_new_one_row_multistream_state : forall calc1 calcx sk cv w d q T P pkg,
+  length (objs (w_st w)) = length (cobjs (w_cs w)) ->
+  let n := length (objs (w_st w)) in
+  let w2 := run_world calc1 calcx sk cv w (one_row_ops n d q T P pkg) in
+  pstate_of (w_st w2) n = mkps true [q] [d] T P /\
+  c_pkg (cobj_of (w_cs w2) n) = pkg /\
+  length (objs (w_st w2)) = length (cobjs (w_cs w2)) /\ (n < length (cobjs (w_cs w2)))%nat.
+Proof. exact one_row_pstate. Qed.
+Print Assumptions C14_new_one_row_multistream_state.
+
+(* THE PROPERTY AS WORDED, FOR EVERY OBJECT with no exception for one-row MultiStreams: after every history a read on
+   object i equals the read on the object that [new_ops_of] constructs from scratch in the state of i.  The only
+   hypothesis left says that a MultiStream with one row has one phase (its phase tuple and its rows agree). *)
+Theorem C14_read_equals_fresh_stream_all : forall calc1 calcx cv,
+  calc1_respects calc1 -> calcx_respects calcx ->
+  forall ops i name flow nophase,
+    let w' := run_world calc1 calcx true cv w0 ops in
+    (i < length (cobjs (w_cs w')))%nat ->
+    let p := pstate_of (w_st w') i in
+    (ps_multi p = true -> length (ps_rows p) = 1%nat -> length (ps_phases p) = 1%nat) ->
+    let n := length (objs (w_st w')) in
+    let wn := run_world calc1 calcx true cv w' (new_ops_of n p (c_pkg (cobj_of (w_cs w') i))) in
+    rd_equiv (snd (get_property calc1 calcx w' i name flow nophase))
+             (snd (get_property calc1 calcx wn n name flow nophase)).
+Proof. exact equals_fresh_stream_all. Qed.
+Print Assumptions C14_read_equals_fresh_stream_all.
+
+(* the same for the volumetric flows, on the domain of C14_vol_fresh and for either variant of proxy() *)
+Theorem C14_vol_equals_fresh_stream_all : forall calc1 calcx sk cv ops i pkg,
+  run_adm calc1 calcx sk cv w0 ops = true ->
+  let w' := run_world calc1 calcx sk cv w0 ops in
+  (i < length (cobjs (w_cs w')))%nat ->
+  let p := pstate_of (w_st w') i in
+  (ps_multi p = true -> length (ps_rows p) = 1%nat -> length (ps_phases p) = 1%nat) ->
+  let n := length (objs (w_st w')) in
+  let wn := run_world calc1 calcx sk cv w' (new_ops_of n p pkg) in
+  snd (read_vol cv (w_st w') i) = snd (read_vol cv (w_st wn) n).
+Proof. exact vol_equals_fresh_stream_all. Qed.
+Print Assumptions C14_vol_equals_fresh_stream_all.
+
+(* The SECOND condition of run_adm (a receiver whose phases mix_from expands in place is the only holder of its
+   SparseArray) cannot be dropped either: B links only the flows of A (this link is inside the domain), B reads vol,
+   A receives a gas inlet (phases (l, s) -> (g, l, s) in place); B's cached view and a view built now disagree. *)
+Theorem C14_vol_adm_mix_needed :
+  run_adm stub_calc1 stub_calcx true stub_cvol w0 (firstn 6 adm_mix_ops) = true /\
+  adm_mix (w_st (run_world stub_calc1 stub_calcx true stub_cvol w0 (firstn 6 adm_mix_ops))) O [2%nat; 3%nat] = false /\
+  let w' := run_world stub_calc1 stub_calcx true stub_cvol w0 adm_mix_ops in
+  (1 < length (cobjs (w_cs w')))%nat /\
+  exists v, snd (step stub_calc1 stub_calcx true stub_cvol w' (ORVol 1%nat)) = BVec v /\
+            veqb v (spec_vol stub_cvol (w_st w') 1%nat) = false.
+Proof. exact vol_adm_mix_needed. Qed.
+Print Assumptions C14_vol_adm_mix_needed.
+
+(* non-vacuity: a one-row MultiStream is reachable (by the very operations above), has been read and mutated, and meets
+   the hypotheses of the three theorems; its read returns a value *)
+Definition one_row_history : list op :=
+  one_row_ops O [1; 2; 0] 1%nat 300 101325 O ++ [ORead O O true false; OSetT O 320; ORVol O; OSetFlow O 1%nat 2%nat 4].
+Example C14_one_row_hypotheses :
+  run_adm stub_calc1 stub_calcx true stub_cvol w0 one_row_history = true /\
+  let w' := run_world stub_calc1 stub_calcx true stub_cvol w0 one_row_history in
+  (0 < length (cobjs (w_cs w')))%nat /\
+  pstate_of (w_st w') O = mkps true [1%nat] [[1; 2; 4]] 320 101325 /\
+  length (objs (w_st w0)) = length (cobjs (w_cs w0)) /\
+  exists v, snd (get_property stub_calc1 stub_calcx w' O O true false) = RVal v /\ ~ v == 0.
+Proof.
+  split; [vm_compute; reflexivity|]. split; [vm_compute; lia|]. split; [vm_compute; reflexivity|].
+  split; [reflexivity|]. eexists. split; [vm_compute; reflexivity|].
+  intros E. unfold Qeq in E. vm_compute in E. discriminate E.
+Qed.
